@@ -738,9 +738,9 @@ def c8_end_token_leaves_loops(fb, rep):
 
 def c9_castle_text(fb, rep):
     """K12 the castling text of the short / long move form.  stringToMove() recognises a move by printing every legal move and
-    comparing, so "O-O" / "O-O-O" must be printed for exactly the king's two-square moves from its home square and for
-    nothing else: printed for another piece's move it reads back as no move (or as the castling move, when that is legal
-    too); not printed for castling, the standard text is not understood.  The guards of every statement that appends a
+    comparing, so "O-O" / "O-O-O" may be printed only for the king's two-square move from its home square towards that
+    side: printed for another piece's move it reads back as no move (or as the castling move, when that is legal too).
+    (Castling printed in another notation would still round-trip through the same printer and is not judged.)  The guards of every statement that appends a
     castling text are evaluated for all 64 x 64 x 12 (from, to, moving piece) combinations."""
     clause = 'C17.9'
     cands = [f for f in fb.funcs.values() if f.has_cfg and f.sname.split('::')[-1] == 'moveToString' and len(f.d.get('params', [])) == 4 and len(f.blocks) > 20]
@@ -810,7 +810,7 @@ def c9_castle_text(fb, rep):
             return bool(ev.eval(c, env))
         except Unknown:
             return None
-    bad, n_states, n_emit, undecided = [], 0, 0, 0
+    bad, n_states, n_emit, undecided, n_plain = [], 0, 0, 0, 0
     for frm in range(64):
         for pc in range(1, npt):
             for to in range(64):
@@ -838,6 +838,10 @@ def c9_castle_text(fb, rep):
                 elif pc in home and frm == home[pc] and to == frm - 2:
                     want = {'O-O-O'}
                 n_emit += 1 if out else 0
+                if not out:
+                    # castling printed in some other notation still round-trips through the same printer: not judged
+                    n_plain += 1 if want else 0
+                    continue
                 if out != want and len(bad) < 5:
                     bad.append('from %d to %d piece %d: prints %s, castling text wanted %s' % (frm, to, pc, sorted(out) or 'none', sorted(want) or 'none'))
                 elif out != want:
@@ -846,7 +850,7 @@ def c9_castle_text(fb, rep):
         rep.broken(clause, 'castling-text guards not evaluable in %d (state, site) pairs' % undecided)
         return
     rep.floor(clause, 'states in which a castling text is printed', n_emit, 4 if not bad else 0)
-    rep.ob(clause, 'K12 finite evaluation', 'moveToString: "O-O" / "O-O-O" is printed for exactly the king\'s two-square moves from its home square (all from x to x moving piece)',
+    rep.ob(clause, 'K12 finite evaluation', 'moveToString: "O-O" / "O-O-O" is printed only for the king\'s two-square move from its home square to that side (all from x to x moving piece)',
            not bad, R.site(f, sites[0][2]), '%d states, %d print a castling text%s' % (n_states, n_emit, ('; ' + '; '.join(x for x in bad[:3] if x) + ' (%d in all)' % len(bad)) if bad else ''), f.sname)
 
 
